@@ -55,7 +55,7 @@ func c13ExecSerial(sc c13Serial) string {
 		godcp.VerifBus(d).Publish(helpers.MembershipChangedBusEventName, &membership.Model{MemberNumber: 1, TotalMembers: 1})
 		deadline := time.Now().Add(10 * time.Second)
 		for reqs() < (r+1)*sc.NumVb {
-			if time.Now().After(deadline) {
+			if deadlinePassed(deadline) {
 				return fmt.Sprintf("server 5.0.1 (serial stream closing), %d vBuckets: rebalance %d never reopened the streams (%d stream requests seen, %d expected): the close of the streams did not complete", sc.NumVb, r, reqs(), (r+1)*sc.NumVb)
 			}
 			time.Sleep(time.Millisecond)
